@@ -1,12 +1,14 @@
 """C07 — float <-> half conversion."""
-from props import simple
+from props import simple, CFG_AVX2, CFG_SSE2
 
 
 def SPEC(tier):
     return simple('props/C07_half.cpp',
                   'exhaustive enumeration of all 2^16 half and all 2^32 float bit patterns through packHalf1x16/unpackHalf1x16 against a bit-level '
                   'IEEE binary16 reference and the F16C instructions, plus random lane-placement cases for the multi-component packers; '
-                  'a case is non-trivial when rounding/overflow/underflow actually happens (float->half), the pattern is not +-0 (half->float), or four distinct lanes are packed')
+                  'a case is non-trivial when rounding/overflow/underflow actually happens (float->half), the pattern is not +-0 (half->float), or four distinct lanes are packed; '
+                  'the same harness is also built with GLM_FORCE_INTRINSICS at AVX2 and SSE2 level (every 4th float pattern there)',
+                  configs=[CFG_AVX2, CFG_SSE2])
 
 
 META = dict(
